@@ -180,6 +180,10 @@ func c20Session(t *rapid.T) {
 	if multi {
 		args = append(args, "--multi")
 	}
+	if rapid.IntRange(0, 3).Draw(t, "searchDisabled") == 0 {
+		// the query is only a parameter of the preview command
+		args = append(args, "--disabled")
+	}
 	s := StartSession(t, SessionCfg{Args: args, Input: []byte(strings.Join(lines, "\n") + "\n"), Width: 110, Height: 16})
 	defer s.Close()
 	history := []string{fmt.Sprintf("fzf %q (%d lines)", args, n)}
@@ -290,7 +294,7 @@ func c20Session(t *rapid.T) {
 	quiesce("start")
 	nsteps := rapid.IntRange(3, 16).Draw(t, "steps")
 	for i := 0; i < nsteps; i++ {
-		a := rapid.SampledFrom([]string{"up", "down", "up", "down", "first", "last", "pos(3)", "put(a)", "put(b)", "backward-delete-char", "change-query(it1)", "clear-query", "toggle", "toggle-all", "refresh-preview",
+		a := rapid.SampledFrom([]string{"up", "down", "up", "down", "first", "last", "pos(3)", "put(a)", "put(b)", "put( )", "put( )", "beginning-of-line+put( )+end-of-line", "toggle-search", "backward-delete-char", "change-query(it1)", "clear-query", "toggle", "toggle-all", "refresh-preview",
 			"toggle-preview", "change-preview-window(up,50%)", "change-preview-window(right,60%)", "change-preview", "change-preview", "change-preview", "burst", "scroll-then-move"}).Draw(t, "action")
 		gap := time.Duration(rapid.SampledFrom([]int{0, 0, 5, 30, 120, 200}).Draw(t, "gapMs")) * time.Millisecond
 		switch a {
